@@ -18,10 +18,10 @@ Proof. destruct f; cbn; congruence. Qed.
 Lemma name_some_not_bad f z : name_of f = Some z -> is_bad f = false.
 Proof. destruct f; cbn; congruence. Qed.
 
-(* ---- every failing step leaves the matrix as it was (repaired reader) ---- *)
-Lemma dbc_fail_frames : forall s l s', dbc_step s l = Fail s' -> frames s' = frames s.
+(* ---- every failing step leaves the matrix as it was (SG_MUL_VAL_/VAL_ repaired; with or without the BA_ value check) ---- *)
+Lemma dbc_fail_frames : forall c s l s', dbc_step_gen true c s l = Fail s' -> frames s' = frames s.
 Proof.
-  intros s l s' H. destruct l; unfold dbc_step, dbc_step_gen in H;
+  intros c s l s' H. destruct l; unfold dbc_step_gen in H;
     unfold step_bo, step_sg, step_babo, step_basg, step_cmbo, step_cmsg, step_val, step_mulval in H;
     cbn [andb negb] in H;
     repeat match type of H with
@@ -30,14 +30,15 @@ Proof.
     try discriminate; inversion H; subst; reflexivity.
 Qed.
 
-Lemma dbc_fail_frames_step' : forall s l, (exists s', dbc_step s l = Fail s') -> frames (step' dbc_step s l) = frames s.
-Proof. intros s l [s' H]. unfold step'. rewrite H. cbn. apply dbc_fail_frames with l. exact H. Qed.
+Lemma dbc_fail_frames_step' : forall c s l, (exists s', dbc_step_gen true c s l = Fail s') ->
+  frames (step' (dbc_step_gen true c) s l) = frames s.
+Proof. intros c s l [s' H]. unfold step'. rewrite H. cbn. apply dbc_fail_frames with c l. exact H. Qed.
 
 (* ---- malformed lines: fail (matrix unchanged) or are not recognised ---- *)
-Lemma dbc_malformed_outcome : forall l, dbc_malformed l = true ->
-  forall s, (exists s', dbc_step s l = Fail s') \/ (exists s', dbc_step s l = Ok s' /\ frames s' = frames s).
+Lemma dbc_malformed_outcome : forall c l, dbc_malformed_gen c l = true ->
+  forall s, (exists s', dbc_step_gen true c s l = Fail s') \/ (exists s', dbc_step_gen true c s l = Ok s' /\ frames s' = frames s).
 Proof.
-  intros l Hm s. destruct l; unfold dbc_step, dbc_step_gen; cbn [dbc_malformed] in Hm.
+  intros c l Hm s. destruct l; unfold dbc_step_gen; cbn [dbc_malformed_gen] in Hm.
   - (* BO_ *) unfold step_bo.
     destruct (num_of id) eqn:Hi; [|left; eexists; reflexivity].
     destruct (name_of name) eqn:Hn; [|left; eexists; reflexivity].
@@ -62,17 +63,19 @@ Proof.
   - (* BA_ BO_ *) unfold step_babo.
     destruct (num_of id) eqn:Hi; [|left; eexists; reflexivity].
     rewrite (num_some_not_num _ _ Hi) in Hm. cbn in Hm.
+    destruct (aval_missing value) eqn:Hv; [left; eexists; reflexivity|]. cbn in Hm.
     destruct (from_compound_integer z); [|left; eexists; reflexivity].
     destruct (find_frame (frames s) a); [|left; eexists; reflexivity].
-    unfold value_ok. rewrite Hm. cbn. left; eexists; reflexivity.
+    unfold value_ok. rewrite Hm. left; eexists; reflexivity.
   - (* BA_ SG_ *) unfold step_basg.
     destruct (num_of id) eqn:Hi; [|right; eexists; split; reflexivity].
     destruct (name_of sname) eqn:Hn; [|right; eexists; split; reflexivity].
     rewrite (num_some_not_num _ _ Hi), (name_some_not_bad _ _ Hn) in Hm. cbn in Hm.
+    destruct (aval_missing value) eqn:Hv; [right; eexists; split; reflexivity|]. cbn in Hm.
     destruct (from_compound_integer z); [|left; eexists; reflexivity].
     destruct (find_frame (frames s) a); [|left; eexists; reflexivity].
     destruct (frame_has_signal _ _ _); [|left; eexists; reflexivity].
-    unfold value_ok. rewrite Hm. cbn. left; eexists; reflexivity.
+    unfold value_ok. rewrite Hm. left; eexists; reflexivity.
   - (* CM_ BO_ *) unfold step_cmbo. destruct text; try (right; eexists; split; reflexivity);
       (destruct (num_of id) eqn:Hi; [rewrite (num_some_not_num _ _ Hi) in Hm; cbn in Hm; discriminate|left; eexists; reflexivity]).
   - (* CM_ SG_ *) unfold step_cmsg. destruct text; try (right; eexists; split; reflexivity);
@@ -100,28 +103,29 @@ Proof.
   - right; eexists; split; reflexivity.
 Qed.
 
-Lemma dbc_malformed_frames : forall l, dbc_malformed l = true -> forall s, frames (step' dbc_step s l) = frames s.
+Lemma dbc_malformed_frames : forall c l, dbc_malformed_gen c l = true ->
+  forall s, frames (step' (dbc_step_gen true c) s l) = frames s.
 Proof.
-  intros l Hm s. destruct (dbc_malformed_outcome l Hm s) as [Hf|Ho].
+  intros c l Hm s. destruct (dbc_malformed_outcome c l Hm s) as [Hf|Ho].
   - apply dbc_fail_frames_step'. exact Hf.
   - destruct Ho as [s' [Ho Hfr]]. unfold step'. rewrite Ho. exact Hfr.
 Qed.
 
 (* ---- the matrix part of every non-SG_ step is a function of the matrix alone ---- *)
 Lemma dbc_nonsg_frames_det : forall l, is_sg l = false ->
-  forall fs c1 c2, frames (step' dbc_step (mkD fs c1) l) = frames (step' dbc_step (mkD fs c2) l).
+  forall c fs c1 c2, frames (step' (dbc_step_gen true c) (mkD fs c1) l) = frames (step' (dbc_step_gen true c) (mkD fs c2) l).
 Proof.
-  intros l Hl fs c1 c2. destruct l; try discriminate; unfold step', dbc_step, dbc_step_gen;
+  intros l Hl c fs c1 c2. destruct l; try discriminate; unfold step', dbc_step_gen;
     unfold step_bo, step_babo, step_basg, step_cmbo, step_cmsg, step_val, step_mulval, with_frames, with_cur, on_frame,
       frame_has_signal; cbn [frames cur andb negb];
     break_all; reflexivity.
 Qed.
 
 Lemma dbc_good_bo_resets : forall l, is_bo l = true -> dbc_malformed l = false ->
-  forall fs c1 c2, step' dbc_step (mkD fs c1) l = step' dbc_step (mkD fs c2) l.
+  forall c fs c1 c2, step' (dbc_step_gen true c) (mkD fs c1) l = step' (dbc_step_gen true c) (mkD fs c2) l.
 Proof.
-  intros l Hb Hm fs c1 c2. destruct l; try discriminate. unfold step', dbc_step, dbc_step_gen, step_bo. cbn [frames].
-  cbn [dbc_malformed] in Hm.
+  intros l Hb Hm c fs c1 c2. destruct l; try discriminate. unfold step', dbc_step_gen, step_bo. cbn [frames].
+  unfold dbc_malformed in Hm. cbn [dbc_malformed_gen] in Hm.
   destruct id; cbn in Hm; try discriminate.
   destruct name; cbn in Hm; try (rewrite ?orb_true_r in Hm; discriminate);
     destruct size; cbn in Hm; try (rewrite ?orb_true_r in Hm; discriminate);
@@ -134,12 +138,12 @@ Proof. intros [f1 c1] [f2 c2]; cbn; intros; subst; reflexivity. Qed.
 
 Definition head_not_sg (a : list line) : Prop := match a with l :: _ => is_sg l = false | [] => True end.
 
-Lemma dbc_inserted_gen : forall clean faulted, DbcInserted clean faulted ->
+Lemma dbc_inserted_gen : forall c clean faulted, DbcInserted c clean faulted ->
   forall p s1 s2, sg_guarded_from p clean = true -> frames s1 = frames s2 ->
     (p = true -> cur s1 = cur s2 \/ head_not_sg clean) ->
-    frames (read dbc_step s1 clean) = frames (read dbc_step s2 faulted).
+    frames (read (dbc_step_gen true c) s1 clean) = frames (read (dbc_step_gen true c) s2 faulted).
 Proof.
-  intros clean faulted HI. induction HI as [|l a b HI IH|x a b Hx Hhead HI IH]; intros p s1 s2 Hg Hf Hc.
+  intros c clean faulted HI. induction HI as [|l a b HI IH|x a b Hx Hhead HI IH]; intros p s1 s2 Hg Hf Hc.
   - exact Hf.
   - rewrite !read_cons. cbn [sg_guarded_from] in Hg. apply andb_true_iff in Hg. destruct Hg as [Hg1 Hg2].
     destruct (is_sg l) eqn:Hsg.
@@ -148,24 +152,24 @@ Proof.
       assert (s1 = s2) by (apply dstate_eq; assumption). subst s2.
       eapply IH; [exact Hg2|reflexivity|]. intros _. left. reflexivity.
     + cbn [andb orb] in Hg2.
-      assert (Hfr : frames (step' dbc_step s1 l) = frames (step' dbc_step s2 l)).
+      assert (Hfr : frames (step' (dbc_step_gen true c) s1 l) = frames (step' (dbc_step_gen true c) s2 l)).
       { destruct s1 as [f1 c1], s2 as [f2 c2]. cbn in Hf. subst f2. apply dbc_nonsg_frames_det. exact Hsg. }
       eapply IH; [exact Hg2|exact Hfr|]. intros Hp. left.
       apply andb_true_iff in Hp. destruct Hp as [Hbo Hgood]. apply negb_true_iff in Hgood.
       destruct s1 as [f1 c1], s2 as [f2 c2]. cbn in Hf. subst f2.
-      rewrite (dbc_good_bo_resets l Hbo Hgood f1 c1 c2). reflexivity.
+      rewrite (dbc_good_bo_resets l Hbo Hgood c f1 c1 c2). reflexivity.
   - rewrite read_cons. eapply IH; [exact Hg| |].
-    + rewrite (dbc_malformed_frames x Hx s2). exact Hf.
+    + rewrite (dbc_malformed_frames c x Hx s2). exact Hf.
     + intros _. right. destruct a; [exact I|exact Hhead].
 Qed.
 
-Theorem dbc_insertions_outside_signal_lists : forall clean faulted,
-  DbcInserted clean faulted -> sg_guarded clean = true ->
-  forall s, frames (read dbc_step s faulted) = frames (read dbc_step s clean) /\
-            dbc_post (read dbc_step s faulted) = dbc_post (read dbc_step s clean).
+Theorem dbc_insertions_outside_signal_lists : forall c clean faulted,
+  DbcInserted c clean faulted -> sg_guarded clean = true ->
+  forall s, frames (read (dbc_step_gen true c) s faulted) = frames (read (dbc_step_gen true c) s clean) /\
+            dbc_post (read (dbc_step_gen true c) s faulted) = dbc_post (read (dbc_step_gen true c) s clean).
 Proof.
-  intros clean faulted HI Hg s.
-  assert (H : frames (read dbc_step s clean) = frames (read dbc_step s faulted)).
+  intros c clean faulted HI Hg s.
+  assert (H : frames (read (dbc_step_gen true c) s clean) = frames (read (dbc_step_gen true c) s faulted)).
   { eapply dbc_inserted_gen; [exact HI|exact Hg|reflexivity|]. intros; discriminate. }
   split; [symmetry; exact H|]. unfold dbc_post. rewrite H. reflexivity.
 Qed.
@@ -273,9 +277,9 @@ Proof.
   destruct (num_of k); [|reflexivity]. destruct (name_of v); [|reflexivity]. rewrite IH. reflexivity.
 Qed.
 
-Lemma dbc_step_gen_le : forall fixed s l, frames_le (frames s) (frames (step' (dbc_step_gen fixed) s l)).
+Lemma dbc_step_gen_le : forall atomic check s l, frames_le (frames s) (frames (step' (dbc_step_gen atomic check) s l)).
 Proof.
-  intros fixed s l. unfold step'. destruct l; unfold dbc_step_gen.
+  intros atomic check s l. unfold step'. destruct l; unfold dbc_step_gen.
   - unfold step_bo. break_all; cbn [settle frames]; try apply frames_le_refl. apply frames_le_app.
   - unfold step_sg. break_all; cbn [settle frames with_frames]; try apply frames_le_refl.
     apply upd_nth_le. intros f. apply f_add_signal_le.
@@ -305,12 +309,12 @@ Proof.
     destruct (Hsig x Hx) as [x' [Hx' Hs']]. exists f', x'. repeat split; congruence || assumption.
 Qed.
 
-Theorem dbc_steps_preserve_introduced : forall fixed, preserves_introduced (dbc_step_gen fixed) dbc_objs.
-Proof. intros fixed s l o Ho. eapply frames_le_objs; [apply dbc_step_gen_le|exact Ho]. Qed.
+Theorem dbc_steps_preserve_introduced : forall atomic check, preserves_introduced (dbc_step_gen atomic check) dbc_objs.
+Proof. intros atomic check s l o Ho. eapply frames_le_objs; [apply dbc_step_gen_le|exact Ho]. Qed.
 
-Theorem dbc_prefix_keeps_frames_and_signals : forall fixed l1 l2 o,
-  dbc_objs (read (dbc_step_gen fixed) dbc_init l1) o -> dbc_objs (read (dbc_step_gen fixed) dbc_init (l1 ++ l2)) o.
-Proof. intros fixed l1 l2 o. apply prefix_keeps_complete_objects. apply dbc_steps_preserve_introduced. Qed.
+Theorem dbc_prefix_keeps_frames_and_signals : forall atomic check l1 l2 o,
+  dbc_objs (read (dbc_step_gen atomic check) dbc_init l1) o -> dbc_objs (read (dbc_step_gen atomic check) dbc_init (l1 ++ l2)) o.
+Proof. intros atomic check l1 l2 o. apply prefix_keeps_complete_objects. apply dbc_steps_preserve_introduced. Qed.
 
 (* a complete BO_ line and a complete SG_ line directly in its signal list do introduce their objects *)
 Lemma step_bo_ok : forall s i n z e a, from_compound_integer i = Some a ->
@@ -354,14 +358,28 @@ Lemma dbc_post_gen_total : forall fs, dbc_post_gen true fs <> None.
 Proof.
   induction fs as [|f r IH]; cbn [dbc_post_gen]; [discriminate|].
   assert (Hc : exists c, cycle_of true f = Some c).
-  { unfold cycle_of. destruct (assoc (f_attrs f) gen_msg_cycle_time) as [[| |]|]; eexists; reflexivity. }
+  { unfold cycle_of. destruct (assoc (f_attrs f) gen_msg_cycle_time) as [[| | |]|]; eexists; reflexivity. }
   destruct Hc as [c Hc]. rewrite Hc. destruct (dbc_post_gen true r); [discriminate|exact IH].
 Qed.
-Theorem dbc_post_total : forall ls, load_with dbc_step dbc_post dbc_init ls <> None.
-Proof. intros ls. unfold load_with, dbc_post. apply dbc_post_gen_total. Qed.
+Theorem dbc_post_total : forall atomic check ls, load_with (dbc_step_gen atomic check) dbc_post dbc_init ls <> None.
+Proof. intros atomic check ls. unfold load_with, dbc_post. apply dbc_post_gen_total. Qed.
 
 Lemma dbc_orig_post_total_refuted :
   (* BO_ 291 .. ; BA_ "GenMsgCycleTime" BO_ 291 abc;   and   ... BO_ 291 "fast"; *)
-  load_with dbc_step_orig dbc_post_orig dbc_init [ex_bo; LBaBo gen_msg_cycle_time (Num 291) Bad] = None /\
-  load_with dbc_step_orig dbc_post_orig dbc_init [ex_bo; LBaBo gen_msg_cycle_time (Num 291) (Str 9)] = None.
+  load_with dbc_step_orig dbc_post_orig dbc_init [ex_bo; LBaBo gen_msg_cycle_time (Num 291) (VWord 9)] = None /\
+  load_with dbc_step_orig dbc_post_orig dbc_init [ex_bo; LBaBo gen_msg_cycle_time (Num 291) (VStr 9)] = None.
 Proof. split; vm_compute; reflexivity. Qed.
+
+(* the reader as it is now: a BA_ line whose value is present but no attribute_value of the grammar (`BA_ "GenMsgCycleTime"
+   BO_ 291 abc;`) is malformed, yet it is not skipped: it runs to its end and the matrix has changed.  The declined repair
+   (dbc_step_strict) would skip it. *)
+Lemma dbc_ba_value_not_skipped_refuted :
+  let l := LBaBo gen_msg_cycle_time (Num 291) (VWord 9) in
+  dbc_malformed_gen true l = true /\ dbc_malformed l = false /\
+  (exists s', dbc_step ex_state l = Ok s' /\ frames s' <> frames ex_state) /\
+  (forall s, frames (step' dbc_step_strict s l) = frames s).
+Proof.
+  cbv zeta. split; [reflexivity|]. split; [reflexivity|]. split.
+  - eexists. split; [vm_compute; reflexivity|]. vm_compute. intros H. discriminate H.
+  - intros s. apply (dbc_malformed_frames true). reflexivity.
+Qed.
